@@ -633,7 +633,7 @@ def run_shard(tier, seed, shard, nshards, res):
         for i in range(10 if tier == 'quick' else 250):
             rng = common.rng_for(seed, 'c11s', shard, i)
             history(dc, sc, res, rng, 'c11 history seed=%d shard=%d i=%d' % (seed, shard, i))
-            if res.counters.get('violations_raw', 0) > 8:
+            if res.new_violations() > 8:
                 return
         sizes = [100, 101, 102, 103, 199, 200, 201, 202, 250, 301, 302, 5]
         for j in range(1 if tier == 'quick' else 6):
@@ -645,7 +645,7 @@ def run_shard(tier, seed, shard, nshards, res):
         for i in range(40 if tier == 'quick' else 800):
             rng = common.rng_for(seed, 'c11c', shard, i)
             schedule(dc, sc, res, rng, 'c11 schedule seed=%d shard=%d i=%d' % (seed, shard, i))
-            if res.counters.get('violations_raw', 0) > 8:
+            if res.new_violations() > 8:
                 return
         probe.reset()
         for i in range(1 if tier == 'quick' else 6):
